@@ -5,6 +5,8 @@ over Gen_C14.v then fails) or fail closed (`failclosed`).  Every variant is an e
 charge.py / geometry.py (so it follows the repository), never a stored patch.
 
     cd /verif && /venv/bin/python -m translator.c14_selftest [repo]        exit 0 = every expectation met
+    ... --prove : additionally compile Gen_C14.v + Properties/C14.v for every variant whose table differs (one coqc
+                  at a time, ~15 s each): `differs-ok` must re-prove every theorem, `differs-bad` must break one
 """
 import ast
 import difflib
@@ -16,7 +18,9 @@ from translator import c14 as tr
 
 CH = "pyxel/data_structure/charge.py"
 GE = "pyxel/detectors/geometry.py"
-REPO = Path(sys.argv[1] if len(sys.argv) > 1 else "/repo")
+PROVE = "--prove" in sys.argv
+_pos = [a for a in sys.argv[1:] if not a.startswith("--")]
+REPO = Path(_pos[0] if _pos else "/repo")
 src = {CH: (REPO / CH).read_text(), GE: (REPO / GE).read_text()}
 
 
@@ -107,6 +111,34 @@ EXTRA2 = [
 ]
 
 
+def prove(files) -> bool:
+    """True iff every theorem of Properties/C14.v is re-proved over the table regenerated from `files`."""
+    import os
+    import shutil
+    import tempfile
+
+    from harness import core
+    from harness.props import c14 as prop
+
+    d = Path(tempfile.mkdtemp(prefix="c14_selftest_"))
+    old = os.environ.get("VERIF_REPO")
+    try:
+        for rel, text in files.items():
+            (d / rel).parent.mkdir(parents=True, exist_ok=True)
+            (d / rel).write_text(text)
+        os.environ["VERIF_REPO"] = str(d)
+        ctx = core.make_ctx("C14", "quick", 0)
+        prop.proof(ctx)
+        shutil.rmtree(ctx.build, ignore_errors=True)
+        return not ctx.broken
+    finally:
+        if old is None:
+            os.environ.pop("VERIF_REPO", None)
+        else:
+            os.environ["VERIF_REPO"] = old
+        shutil.rmtree(d, ignore_errors=True)
+
+
 def main() -> int:
     bad = 0
     for name, expect, edits in CASES + EXTRA + EXTRA2:
@@ -115,8 +147,13 @@ def main() -> int:
             e(files)
         kind, info = run(files)
         ok = any(kind == x.split("-")[0] for x in expect.split("|"))
+        if ok and PROVE and kind == "differs":
+            proved = prove(files)
+            want = [x.split("-")[1] for x in expect.split("|") if x.startswith("differs-")][0]
+            ok = proved == (want == "ok")
+            info = f"[theorems {'re-proved' if proved else 'BROKEN'}] " + info
         bad += not ok
-        print(f"{'ok  ' if ok else 'FAIL'} {name:66s} -> {kind:10s} (expected {expect}) {info}")
+        print(f"{'ok  ' if ok else 'FAIL'} {name:66s} -> {kind:10s} (expected {expect}) {info}", flush=True)
     print("unexpected:", bad)
     return 1 if bad else 0
 
